@@ -22,7 +22,8 @@ MARGIN = 1e-6
 @st.composite
 def _pcase(draw, planar):
     n = draw(st.sampled_from([1, 2, 5, 40, 200]))
-    return {"poly": draw(gp.simple_polygon(max_n=20)), "emb": draw(gp.embedding(planar_only=planar)),
+    kinds = ("star", "comb", "spiral", "lattice", "lattice_free", "lattice_free", "lattice_free", "convex", "untangled")
+    return {"poly": draw(gp.simple_polygon(max_n=20, kinds=kinds)), "emb": draw(gp.embedding(planar_only=planar)),
             "pts": draw(points.point_noise(n)), "perm": draw(zoo.noise(min(n, 64))), "single": draw(st.integers(0, 10**6)),
             "use_convex_cls": draw(st.booleans())}
 
@@ -81,7 +82,7 @@ def _polygon(case, rec, planar):
     V, arg = em["verts"], em["normal_arg"]
     size = 2 * float(np.max(np.linalg.norm(xy - xy.mean(axis=0), axis=1)))
     P2, kinds = points.points_for_polygon(case["pts"], xy, size)
-    lattice = case["poly"]["kind"] == "lattice"
+    lattice = case["poly"]["kind"] in ("lattice", "lattice_free")
     if lattice:
         k = len(P2) // 2
         P2[:k] = np.round(P2[:k] * 2) / 2
@@ -150,13 +151,13 @@ def _curved(case, rec, cls):
 
 def clauses():
     return [
-        Clause("polygon_any_plane", _pcase(False), lambda c, r: _polygon(c, r, False), quick=600, thorough=20000,
+        Clause("polygon_any_plane", _pcase(False), lambda c, r: _polygon(c, r, False), quick=2500, thorough=40000,
                rule="Polygon/ConvexPolygon, arbitrary embedding", floors={"near_boundary": 0.25, "tilted": 0.3, "cw": 0.2, "nonconvex": 0.25}),
-        Clause("polygon_xy_plane", _pcase(True), lambda c, r: _polygon(c, r, True), quick=600, thorough=20000,
+        Clause("polygon_xy_plane", _pcase(True), lambda c, r: _polygon(c, r, True), quick=3500, thorough=60000,
                rule="polygon in the xy-plane; also (N,2) points", floors={"aligned": 0.15, "points2d": 0.9, "lattice_aligned": 0.05}),
-        Clause("circle", _ccase(1), lambda c, r: _curved(c, r, "Circle"), quick=400, thorough=10000, rule="Circle",
+        Clause("circle", _ccase(1), lambda c, r: _curved(c, r, "Circle"), quick=1200, thorough=20000, rule="Circle",
                floors={"other_quadrant": 0.4}),
-        Clause("ellipse", _ccase(2), lambda c, r: _curved(c, r, "Ellipse"), quick=400, thorough=10000, rule="Ellipse",
+        Clause("ellipse", _ccase(2), lambda c, r: _curved(c, r, "Ellipse"), quick=1500, thorough=25000, rule="Ellipse",
                floors={"other_quadrant": 0.4, "a<b": 0.15, "a>b": 0.15}),
     ]
 
